@@ -11,10 +11,28 @@
    answer is the valid map of the requested height / panic.
 """
 import os
+import re
 import random
 from vlib import core
 
 NOMAP, ERR = -100, -101
+
+
+
+def final_coverage_zero(r):
+    """actions with count 0 in the *final* coverage report only: with -coverage 1 TLC also prints interim
+    reports every minute, in which actions the breadth-first search has not reached yet show 0:0."""
+    mark = "The coverage statistics at"
+    at = r.out.rfind(mark)
+    if at < 0:
+        raise core.MachineryError("no coverage report in the TLC output")
+    z = []
+    for m in re.finditer(r"^<(\w+) line .*?>: (\d+):(\d+)$", r.out[at:], re.M):
+        if int(m.group(2)) == 0 and int(m.group(3)) == 0:
+            z.append(m.group(1))
+    taken = {m.group(1) for m in re.finditer(r"^<(\w+) line .*?>: (\d+):(\d+)$", r.out[at:], re.M)
+             if int(m.group(2)) > 0 or int(m.group(3)) > 0}
+    return [a for a in z if a not in taken]      # an action split into several disjuncts counts as taken if one is
 
 
 def replay_isolating_crashes(ctx, prop, nrows, inp, out, timeout=900):
@@ -144,7 +162,7 @@ def run(ctx):
     r = ctx.tlc("BlockMapChain", cfg, args=[] if quick else ["-coverage", "1"], timeout=1500)
     ctx.extra["mc_fixed"] = {"cfg": cfg, "distinct": r.distinct, "generated": r.generated, "wall_s": round(r.wall, 1)}
     if not quick:
-        zero = [z for z in r.coverage_zero() if z in ("Pref", "Arrive", "EndBatch", "Init")]
+        zero = [z for z in final_coverage_zero(r) if z in ("Pref", "Arrive", "EndBatch", "Init")]
         ctx.extra["coverage_zero_actions"] = zero
         if zero:
             raise core.MachineryError("actions never taken in %s: %s" % (cfg, zero))
